@@ -30,15 +30,12 @@ static void mark_cancelled(int id) {
     if (s[S_RAN + id]) vrt_fail("pool/ran-and-cancelled", "job %d reported cancelled after it had executed", id);
 }
 
-struct ClosureGuard {  // counts live copies of a job closure
+struct ClosureGuard {  // counts the instances of a job closure: every one that is constructed - moved-from ones included - is destroyed
     int id;
-    bool live;
-    explicit ClosureGuard(int i) : id(i), live(true) { vrt_scratch()[S_CLOS + id]++; }
-    ClosureGuard(ClosureGuard &&o) noexcept : id(o.id), live(o.live) { o.live = false; }
+    explicit ClosureGuard(int i) : id(i) { vrt_scratch()[S_CLOS + id]++; }
+    ClosureGuard(ClosureGuard &&o) noexcept : id(o.id) { vrt_scratch()[S_CLOS + id]++; }
     ClosureGuard(const ClosureGuard &) = delete;
-    ~ClosureGuard() {
-        if (live) vrt_scratch()[S_CLOS + id]--;
-    }
+    ~ClosureGuard() { vrt_scratch()[S_CLOS + id]--; }
 };
 
 static cocls::async<void> job_coawait(cocls::thread_pool &pool, int id) {
